@@ -481,7 +481,10 @@ func (g *pg) write(sb *strings.Builder, x *X, sameLine bool) {
 		}
 		sb.WriteString(g.lineCm("c1") + g.tight("c1") + ")")
 	case x.K == "idx":
-		g.write(sb, x.A[0], sameLine)
+		// the bracket of an access must be on the line of the identifier it follows
+		var base strings.Builder
+		g.write(&base, x.A[0], sameLine)
+		sb.WriteString(strings.ReplaceAll(base.String(), "\n", " "))
 		sb.WriteString("[" + g.tight("i0"))
 		g.write(sb, x.A[1], false)
 		sb.WriteString(g.tight("i1") + "]")
@@ -577,11 +580,28 @@ func (g *pg) block(c sctx, max int) string {
 	inner.top = false
 	for i := 0; i < n && g.budget > 0; i++ {
 		sb.WriteString(g.ind(inner.depth))
-		sb.WriteString(g.stmt(inner))
-		sb.WriteString(g.stmtSep())
+		st := g.stmt(inner)
+		sb.WriteString(st)
+		sb.WriteString(g.sepAfter(st))
 	}
-	s := sb.String()
-	// the last separator must not be a semicolon directly before the closing brace? (allowed) - keep it
+	// a semicolon separates statements, it cannot end the last one
+	return noFinalSemicolon(sb.String())
+}
+
+// sepAfter draws the separator after a statement (a bare return cannot be followed by a semicolon).
+func (g *pg) sepAfter(st string) string {
+	sep := g.stmtSep()
+	if strings.HasSuffix(strings.ToLower(st), "return") && strings.HasPrefix(strings.TrimLeft(sep, " "), ";") {
+		return "\n"
+	}
+	return sep
+}
+
+func noFinalSemicolon(s string) string {
+	t := strings.TrimRight(s, " \t\n")
+	if strings.HasSuffix(t, ";") {
+		return strings.TrimRight(t, "; \t\n") + "\n"
+	}
 	return s
 }
 
@@ -665,7 +685,7 @@ func (g *pg) stmt(c sctx) string {
 		case 1:
 			head = "i " + g.kw("in") + " " + g.srcGuard(g.exprL(1))
 		case 2:
-			head = "[k, v] in " + g.oneOf("fm", "m", "{\"a\":1,\"b\":2,\"c\":3}", "{1:2}", "{}")
+			head = "[k, v] in " + g.oneOf("fm", "m", "m.o", "ob") // a map literal cannot be written here: the brace would start the block
 		case 3:
 			head = "[ i,j ] in [[1, 2], [3, 4]]"
 		default:
@@ -709,7 +729,7 @@ func (g *pg) stmt(c sctx) string {
 		return s
 	case 19: // mutex
 		return g.kw("mutex") + " " + g.oneOf("mx", "mx", "mtx2") + g.body(c, 3)
-	case 20:
+	case 20, 29:
 		if c.inLoop {
 			return g.oneOf("bc", "break", "continue", "BREAK")
 		}
@@ -800,7 +820,11 @@ func (g *pg) sink(c sctx) string {
 	n := g.pick(6, "nattr")
 	perm := rapid.Permutation([]int{0, 1, 2, 3, 4}).Draw(g.rt, "attrperm")
 	for i := 0; i < n; i++ {
-		sb.WriteString(g.oneOf("atsep", "\n    ", " ", ",\n  ", "\n") + attrs[perm[i]])
+		if i == 0 {
+			sb.WriteString(g.oneOf("atsep0", "\n    ", " ", "\n") + attrs[perm[i]])
+		} else {
+			sb.WriteString(g.oneOf("atsep", "\n    ", ", ", ",\n  ", "\n") + attrs[perm[i]])
+		}
 	}
 	sc := c
 	sc.inFunc, sc.inLoop = false, false
@@ -838,10 +862,11 @@ func genProg(rt *rapid.T) Case {
 	n := 1 + g.pick(8, "ntop")
 	c := sctx{top: true}
 	for i := 0; i < n && g.budget > 0; i++ {
-		sb.WriteString(g.stmt(c))
-		sb.WriteString(g.stmtSep())
+		st := g.stmt(c)
+		sb.WriteString(st)
+		sb.WriteString(g.sepAfter(st))
 	}
-	src := sb.String()
+	src := noFinalSemicolon(sb.String())
 	if g.chance(3, "finalnl") {
 		src = strings.TrimRight(src, "\n ;\t")
 	}
